@@ -47,9 +47,8 @@ func ToAddress(b []byte) (Address, error) {
 }
 
 // StringToAddress returns Address with bytes set to the hex decoding
-// of s.
-// StringToAddress uses copy, which copies the minimum of
-// either AddressLen or the length of the hex decoded string.
+// of s. The decoded payload must be exactly AddressLen bytes followed
+// by its checksum.
 func StringToAddress(s string) (Address, error) {
 	var a Address
 	if err := a.UnmarshalText([]byte(s)); err != nil {
@@ -74,8 +73,11 @@ func (a *Address) UnmarshalText(input []byte) error {
 	if err != nil {
 		return err
 	}
-
-	copy(a[:], decoded)
+	parsed, err := ToAddress(decoded)
+	if err != nil {
+		return err
+	}
+	*a = parsed
 	return nil
 }
 
